@@ -254,7 +254,7 @@ def clause_c(c: Check):
                              'ProcessExecutionSettings.%s@%s' % (d.name, where),
                              'process execution settings are constructed with timeout %s' % (
                                  unparse(t) if t is not None else 'absent (= no timeout)'), loc)
-    c.floor('C19-c', 'constructions of ProcessExecutionSettings', n_ctor, 4)
+    c.floor('C19-c', 'constructions of ProcessExecutionSettings', n_ctor, 2)
     # references to the dropping factories that are not calls (passed as values)
     for name in TIMEOUT_DROPPING_FACTORIES:
         d = ix.class_member(pes, name)
@@ -304,16 +304,58 @@ def clause_d(c: Check):
                         ok = isinstance(d, FuncDef) and d.name == '_post_sds_environment'
         c.expect(ok, 'C19-d', name + '/rebuilt-per-instruction',
                  'the instruction environment (with its timeout) is not rebuilt inside the per-instruction loop', g.loc())
-    pse = ix.func(EXECUTOR_MOD + ':_PartialExecutor._post_sds_environment')
-    for call, d in util.calls_in(ix, pse):
+    # every instruction environment built by the executor carries settings made from the LIVE instruction settings when
+    # the environment is built - not a snapshot kept by the executor (a `timeout` / `env` instruction that ends a
+    # phase must be seen by the first instruction of the next phase)
+    ex_cls = ix.cls(EXECUTOR_MOD + ':_PartialExecutor')
+    n_env = 0
+    for env_name in ('InstructionEnvironmentForPreSdsStep', 'InstructionEnvironmentForPostSdsStep'):
+        env_cls = ix.cls('exactly_lib.test_case.phases.instruction_environment:' + env_name)
+        for s in util.call_sites_of(ix, env_cls):
+            if s.func is None or s.func.cls is not ex_cls:
+                continue
+            n_env += 1
+            b = util.ctor_call_args(ix, env_cls, s.node) or {}
+            a = b.get('proc_exe_settings')
+            c.require(a is not None, 'C19-d: the settings argument of %s at %s is not understood' % (env_name, s.loc))
+            bad = _not_live_settings(ix, pes, s.func, a, 0)
+            c.expect(bad is None, 'C19-d', '%s@%s/live-settings' % (env_name, s.func.name),
+                     'the process execution settings of a new instruction environment are %s - a `timeout` or `env` '
+                     'instruction executed since that value was made is not seen by the following instructions' % bad,
+                     s.loc)
+    c.floor('C19-d', 'instruction environments built by the executor', n_env, 2)
+
+
+def _not_live_settings(ix, pes, f: FuncDef, expr, depth: int):
+    """None when `expr` (in f) builds ProcessExecutionSettings now, from self._instruction_settings.timeout_in_seconds();
+    otherwise a description of what it is"""
+    if depth > 3:
+        return 'computed more than 3 calls away'
+    expr = util.resolve_temp(f, expr)
+    if isinstance(expr, ast.Call):
+        d = ix.callee(f.module, f, expr)
         if d == pes:
-            b = util.ctor_call_args(ix, pes, call) or {}
+            b = util.ctor_call_args(ix, pes, expr) or {}
             t = b.get('timeout_in_seconds')
+            t = util.resolve_temp(f, t) if t is not None else None
             ok = isinstance(t, ast.Call) and isinstance(t.func, ast.Attribute) and t.func.attr == 'timeout_in_seconds' \
-                 and isinstance(t.func.value, ast.Attribute) and t.func.value.attr == '_instruction_settings'
-            c.expect(ok, 'C19-d', '_post_sds_environment/live-timeout',
-                     'the timeout of a new instruction environment is %s, not the live instruction settings\' timeout'
-                     % (unparse(t) if t is not None else None), pse.loc())
+                and isinstance(t.func.value, ast.Attribute) and t.func.value.attr == '_instruction_settings' and not t.args
+            return None if ok else 'built with timeout `%s`, not the live instruction settings\' timeout' % (
+                unparse(t) if t is not None else None)
+        if isinstance(d, FuncDef) and d.cls is not None and f.cls is not None and ix.is_subclass(f.cls, d.cls) \
+                and not d.is_generator:
+            rets = util.returned_values(d)
+            if not rets:
+                return 'the result of %s, which returns nothing' % d.name
+            for r in rets:
+                bad = _not_live_settings(ix, pes, d, r, depth + 1)
+                if bad is not None:
+                    return bad + ' (returned by %s)' % d.name
+            return None
+        return 'the result of `%s`' % unparse(expr.func)
+    if isinstance(expr, ast.Attribute):
+        return 'the stored value `%s`' % unparse(expr)
+    return '`%s`' % unparse(expr)
 
 
 # ---------------------------------------------------------------- e
